@@ -2,7 +2,7 @@
    Objects: coq/Model/Penalties.v (executable model of pygam/penalties.py and *.build_penalties), real instance. *)
 From Coq Require Import List Reals.
 From PG Require Import Base.Ops Base.Vec Model.Penalties Proofs.VecR Proofs.C04 Proofs.C04b Proofs.C04Transfer.
-From PG Require Import Proofs.C04Kron Proofs.C04Kron2 Proofs.C04Kron3.
+From PG Require Import Proofs.C04Kron Proofs.C04Kron2 Proofs.C04Kron3 Proofs.C04Poly.
 Import ListNotations.
 Open Scope R_scope.
 
@@ -48,6 +48,18 @@ Print Assumptions C04_null_constants.
 Theorem C04_null_lines : forall d a b n, (2 <= d)%nat -> diffnR d (arith a b n) = zerosR (n - d).
 Proof. exact derivative_null_lines. Qed.
 Print Assumptions C04_null_lines.
+(* the general statement of the property: every polynomial sequence of degree below d (at most d coefficients; sampled at a, a+1, ...:
+   the B-spline coefficients of a polynomial on uniform knots form such a sequence) has vanishing d-th difference, hence zero
+   quadratic form under the order-d derivative penalty.  C04_null_constants / C04_null_lines are the cases d >= 1, 2. *)
+Theorem C04_null_polynomials : forall d cs a n, (length cs <= d)%nat ->
+  diffnR d (sample (fun i => polyval cs (INR i)) a n) = zerosR (n - d).
+Proof. exact derivative_null_polynomials. Qed.
+Print Assumptions C04_null_polynomials.
+Theorem C04_penalty_null_polynomials : forall d cs n, (1 <= d)%nat -> (length cs <= d)%nat ->
+  quadR (pen_derivative Rrops n d) (sample (fun i => polyval cs (INR i)) 0 n) = 0.
+Proof. exact derivative_penalty_null_polynomials. Qed.
+Print Assumptions C04_penalty_null_polynomials.
+
 Theorem C04_cyclic_null_constants : forall d c n, (1 <= d)%nat -> cdiffnR d (repeat c n) = zerosR n.
 Proof. exact periodic_null_constants. Qed.
 Print Assumptions C04_cyclic_null_constants.
